@@ -919,6 +919,13 @@ class IntrinsicCall(Call):
             # If this is an inquiry access (which doesn't actually access the
             # value) and we haven't explicitly requested them, ignore the
             # inquired variables, which are always the first argument.
+            # Any expressions used to index the inquired variable are
+            # still evaluated though, so these are visited.
+            if self.arguments and isinstance(self.arguments[0], Reference):
+                _, all_indices = self.arguments[0].get_signature_and_indices()
+                for indices in all_indices:
+                    for index in indices:
+                        index.reference_accesses(var_accesses)
             for child in self.arguments[1:]:
                 child.reference_accesses(var_accesses)
         else:
